@@ -391,7 +391,7 @@ def same_type_twins(rng, lines, types=("LYS", "ASP", "GLU", "ARG", "HIS", "TYR",
     return flatten(tw)
 
 
-def add_ions(rng, lines, n=2, name="CA"):
+def add_ions(rng, lines, n=2, name="CA", blank_same_number=False):
     """`n` ions of one kind in the chain of (and 3-5 A from) an acidic side chain, numbered consecutively: hetero groups that
     share a printed label and differ in residue number.  None without an ASP/GLU."""
     acids = [l for l in lines if l.startswith("ATOM") and ((l[17:20] == "ASP" and l[12:16].strip() == "CG") or (l[17:20] == "GLU" and l[12:16].strip() == "CD"))]
@@ -408,7 +408,9 @@ def add_ions(rng, lines, n=2, name="CA"):
                 break
         d = rng.uniform(3.2, 5.0)
         p = [round(x + d * v[0] / r, 3), round(y + d * v[1] / r, 3), round(z + d * v[2] / r, 3)]
-        l = "HETATM%5d %-4s %3s %1s%4d    %8.3f%8.3f%8.3f  1.00  0.00          %2s\n" % (9000 + k, name, name.rjust(3), c[21], 900 + k, p[0], p[1], p[2], name.rjust(2))
+        # `blank_same_number`: a hetero record without chain identifier that carries the residue number of the acid next to it
+        ch, num = (" ", int(c[22:26])) if blank_same_number else (c[21], 900 + k)
+        l = "HETATM%5d %-4s %3s %1s%4d    %8.3f%8.3f%8.3f  1.00  0.00          %2s\n" % (9000 + k, name, name.rjust(3), ch, num, p[0], p[1], p[2], name.rjust(2))
         out.append(l)
     return out
 
